@@ -134,6 +134,20 @@ CHECKS = {
                 'the heap / validator models elsewhere; the message level is oracle-only.',
         'technique': 'Coq proof that the parser model threads the given reference + differential on synthesised profiles',
     },
+    'C05': {
+        'text': 'Partial proof. For all trees, tables and texts every STRICT-only branch of child admission (segment, '
+                'field, component level, incl. the cardinality check) and of textual leaf construction only refuses: '
+                'what STRICT admits TOLERANT admits with the identical result (C05_admission_subset_*, '
+                'C05_textual_leaf_subset). The full parse-level simulation and the clause "STRICT-accepted => only '
+                'missing-required validator errors" are decided by running the Coq parser model at BOTH levels against '
+                'hl7apy on generated lines (valid/invalid/over-long leaves) and by the oracle on segments and messages '
+                '(known findings F14, F18).',
+        'design_ref': 'DESIGN.md section 7 C05',
+        'note': 'Trusted: Coq kernel + vm_compute; translators; harness c05.py/segcorr.py. No axioms. Not proved: the '
+                'constructors\' STRICT branches and the numeric/date datatype layer in the simulation; API histories are '
+                'exercised by the heap checks.',
+        'technique': 'Coq subset lemmas for admission and textual leaves + both-levels model differential + oracle',
+    },
 }
 
 NOT_YET = {}
